@@ -351,7 +351,8 @@ def run(chk, facts):
         from .common import inline_lets
         st_ = syn.one_fn("token", impl_of="State")
         fl_ = syn.one_fn("flush_indents", impl_of="State")
-        local = {f["name"]: f for f in syn.fns if f["mod"] == st_["mod"] and f.get("impl_of") is None and f.get("body")}
+        local = {f["name"]: f for f in syn.fns if f["mod"] == st_["mod"] and f.get("body") and (f.get("impl_of") is None or
+                 ((f.get("impl_of") or "").strip() == "State" and not f.get("impl_trait") and f["sig"]["inputs"] and f["sig"]["inputs"][0].get("pat", {}).get("name") != "self"))}
 
         def amounts(fn, tok):
             out = []
@@ -425,7 +426,7 @@ def run(chk, facts):
         from .smalleval import SmallEval, NoEval
         from .common import inline_lets, fn_paths
         st6 = syn.one_fn("token", impl_of="State")
-        local6 = {f["name"]: f for f in syn.fns if f["mod"] == st6["mod"] and f.get("impl_of") is None and f.get("body")}
+        local6 = local
         body6 = inline_lets(st6["body"])
         makers = []
         for n in walk(body6):
